@@ -505,12 +505,81 @@ func TestC07(t *testing.T) {
 		}
 	})
 	rec.Exhaustive("retry-scripts")
+	// retries and several writers together: the transport accepts part of a message and reports a
+	// temporary error now and then while W goroutines write with retries.  The resumed remainder
+	// must follow its first part: no other writer's message in between.
+	rec.Suite("retry-with-writers", rec.N(60, 6000), func(c *ev.Case) {
+		r := c.R
+		W := 2 + r.IntN(3)
+		per := 6
+		c.Class("retry-with-writers/W=%d", W)
+		mc := memnet.NewConn()
+		seed := r.Uint32()
+		mc.Script = func(seq int, b []byte) memnet.Outcome {
+			x := uint32(seq)*2654435761 ^ seed
+			x ^= x >> 15
+			if len(b) > 8 && x%3 == 0 {
+				return memnet.Outcome{Accept: 1 + int(x>>8)%(len(b)-1), Err: &memnet.TempError{Msg: "temporary transport error"}, StallAt: -1}
+			}
+			return memnet.Outcome{Accept: -1, StallAt: -1}
+		}
+		conn, err := diam.NewConn(mc, "peer", diam.HandlerFunc(func(diam.Conn, *diam.Message) {}), ctx.Parser)
+		if err != nil {
+			c.Fail(ev.Sig{"op": "setup"}, nil, nil, "NewConn: %v", err)
+			return
+		}
+		okIDs := map[uint32]int{}
+		sizes := map[uint32]int{}
+		var mu sync.Mutex
+		var wg sync.WaitGroup
+		var werr atomic.Value
+		for w := 0; w < W; w++ {
+			for s := 0; s < per; s++ {
+				sizes[uint32(w)<<16|uint32(s)] = c07Sizes[(w+s)%len(c07Sizes)]
+			}
+		}
+		for w := 0; w < W; w++ {
+			wg.Add(1)
+			go func(w int) {
+				defer wg.Done()
+				for s := 0; s < per; s++ {
+					m, id := c07Message(ctx, w, s, sizes[uint32(w)<<16|uint32(s)])
+					if _, err := m.WriteToWithRetry(conn, 50); err != nil {
+						werr.Store(fmt.Errorf("writer %d seq %d: %v", w, s, err))
+						return
+					}
+					mu.Lock()
+					okIDs[id]++
+					mu.Unlock()
+				}
+			}(w)
+		}
+		wg.Wait()
+		mc.FeedEOF()
+		<-mc.Closed()
+		if e := werr.Load(); e != nil {
+			c.Fail(ev.Sig{"op": "write-error", "how": "retry-with-writers"}, nil, nil, "a write with 50 retries failed on a transport that only reports temporary errors: %v", e)
+			return
+		}
+		if _, problem := checkWireLog(mc.Written(), okIDs, sizes); problem != "" {
+			c.Fail(ev.Sig{"op": "wire-log", "writers": W, "how": "retry-with-writers"}, nil, nil, "%d writers x %d messages with retries, a third of the transport's writes accept a part and report a temporary error: %s", W, per, problem)
+			return
+		}
+		c.Event("messages_on_wire", W*per)
+		c.Event("retry_with_writers_runs", 1)
+	})
 	rec.Suite("stalled-transport", 2*4*3*2, func(c *ev.Case) {
 		sctpConn := c.I%2 == 0
 		stallAt := (c.I / 2) % 4
 		retries := []uint{0, 1, 3}[(c.I/8)%3]
 		timeout := []time.Duration{40 * time.Millisecond, time.Second}[(c.I/24)%2]
 		stall := 10 * timeout
+		if !sctpConn {
+			// the stream transport enforces the write deadline the library sets: the stalled write
+			// returns what it had accepted and a time-out after WriteTimeout, and one retry is
+			// enough to send the rest
+			stall = timeout + timeout/2
+		}
 		c.Class("stalled-transport/sctp=%v/at=%d/retries=%d", sctpConn, stallAt, retries)
 		leak := runBubbleWD(t, rec, c, 60*time.Second, func() { runC07Stalled(c, ctx, timeout, stall, stallAt, retries, sctpConn) })
 		if leak != "" && !c.Failed() {
@@ -587,9 +656,13 @@ func runC07Stalled(c *ev.Case, ctx *lib.Ctx, timeout, stall time.Duration, stall
 		} else {
 			_, err = m.WriteToWithRetry(conn, retries)
 		}
+		if err != nil && !sctpConn && retries >= 1 {
+			c.Fail(sig("not-resumed-after-write-timeout"), nil, nil, "message %d: the transport reported a partial write and a time-out once (send buffer full for %v, WriteTimeout %v), the writer had asked for %d retries: the write returned %v instead of sending the rest", i, stall, timeout, retries, err)
+			return
+		}
 		if err != nil {
 			// the writer was told about a failure (a transport that enforces the write timeout
-			// would do that): nothing more is written; what reached the transport of this
+			// does that): nothing more is written; what reached the transport of this
 			// message must be a prefix of it, once
 			failedAt, failedErr = i, err
 			break
